@@ -11,7 +11,7 @@ echo "== apply"; git -C "$WT" apply "$SRC/patch.diff" && echo applied
 (cd "$WT" && PYTHONPATH="$WT" /venv/bin/python "$SRC/demo.py" 2>&1 | tail -3)
 (cd "$WT" && PYTHONPATH="$WT" /venv/bin/python "$SRC/demo.py" >/dev/null 2>&1); echo "patched_rc=$?"
 echo "== suite on patched tree"
-(cd "$WT" && PYTHONPATH="$WT" /venv/bin/python -m pytest -q -p no:cacheprovider --timeout=900 --continue-on-collection-errors --junitxml=/tmp/sv/$NAME.xml -x --maxfail=100000 static_frame/test >/tmp/sv/$NAME.pytest.log 2>&1; tail -1 /tmp/sv/$NAME.pytest.log)
+(cd "$WT" && HYPOTHESIS_STORAGE_DIRECTORY=/tmp/sv/hyp-$NAME PYTHONPATH="$WT" /venv/bin/python -m pytest -q -p no:cacheprovider --timeout=900 --continue-on-collection-errors --junitxml=/tmp/sv/$NAME.xml -x --maxfail=100000 static_frame/test >/tmp/sv/$NAME.pytest.log 2>&1; tail -1 /tmp/sv/$NAME.pytest.log)
 python3 /verif/tools/baseline_compare.py /tmp/sv/$NAME.xml
 } > "$OUT" 2>&1
 git -C /repo worktree remove --force "$WT"
